@@ -248,11 +248,37 @@ def stablehlo_constant_rows(entry):
 # ------------------------------------------------------------------------------------------
 # XLA client C++ text -> program (the C++-subset parser of fa_printer with the builder's types)
 # ------------------------------------------------------------------------------------------
+def xla_tokens(text):
+    """tokens of the C++ subset; a number immediately followed by `j` (a Python imaginary literal, which is not C++) is one
+    token of kind `imag` so that the rest of the text can still be read"""
+    out, pos, last_end = [], 0, -1
+    while pos < len(text):
+        m = P._CPP_TOK.match(text, pos)
+        if not m:
+            raise P.ParseError("C++ lexer: unexpected text %r" % text[pos:pos + 30])
+        if m.lastgroup:
+            tok = (m.lastgroup, m.group(m.lastgroup))
+            if tok[0] == "id" and tok[1] in ("j", "J") and out and out[-1][0] == "num" and last_end == m.start():
+                out[-1] = ("imag", out[-1][1] + tok[1])
+            else:
+                out.append(tok)
+            last_end = m.end()
+        pos = m.end()
+    out.append(("eof", ""))
+    return out
+
+
 class XlaParser(P.CppParser):
     def __init__(self, text, holes=False):
-        super().__init__(text, holes)
+        super().__init__("", holes)
+        self.toks = xla_tokens(text)
         self.extra_types = {"XlaOp", "xla::XlaOp"}
         self.tparams = []
+
+    def primary(self):
+        if self.peek()[0] == "imag":
+            return self.rows.add("opaque", s=self.next()[1])
+        return super().primary()
 
     def looks_like_type(self, k=0):
         t = self.peek(k)
@@ -293,10 +319,14 @@ def parse_xla(text):
 # ------------------------------------------------------------------------------------------
 # graph -> node table, including the graphs of the alternative constant context
 # ------------------------------------------------------------------------------------------
+def ElemT(t):
+    return t[4:] if t.startswith("alt:") else t
+
+
 def project(graph):
     """like fa_printer.project, plus: a constant whose value is an expression of the alternative context is the
     node `constant_alt` with that expression's root as its operand; nodes of the alternative context carry the
-    type "alt:<type>".  -> (dict(fname, params, nodes, root), exprs)"""
+    type "alt:<type>"; the `like` expression of a constant is projected too (it is not an operand of the constant).  -> (dict(fname, params, nodes, root), exprs)"""
     from functional_algorithms.expr import Expr
     assert graph.kind == "apply", graph.kind
     fname = graph.operands[0]
@@ -324,7 +354,14 @@ def project(graph):
             if isinstance(val, Expr):
                 rec = dict(k="constant_alt", a=[visit(val, True)], t=t, n="", v=dict(P.NOV))
             else:
-                rec = dict(k="constant", a=[], t=t, n="", v=P.value_encoding(val))
+                v = P.value_encoding(val)
+                if ElemT(t).startswith("integer") and v["c"] in ("float", "complex"):
+                    # ill-typed by construction (a float value with an integer like, produced by constant folding): not judged (as in C05)
+                    v = dict(P.NOV, c="unsupported", name="float value in an integer-typed constant")
+                rec = dict(k="constant", a=[], t=t, n="", v=v)
+            if not alt and isinstance(e.operands[1], Expr):
+                # the operand the constant is attached to (`like`) is a term of the graph even when nothing else uses it
+                visit(e.operands[1], False)
         else:
             ops = [visit(o, alt) for o in e.operands]
             rec = dict(k=k, a=ops, t=typ(e, alt), n="", v=dict(P.NOV))
@@ -345,7 +382,15 @@ def project(graph):
             params.append(dict(name=str(a.operands[0]), t=str(a.operands[1]), node=ids.get(id(a), 0)))
     finally:
         sys.setrecursionlimit(old)
-    return dict(fname=fname, params=params, nodes=nodes, root=root), exprs
+    refs = dict(main=set(), alt=set())
+    for n, e in zip(nodes, exprs):
+        try:
+            ref = e.ref      # (after printing: the name the printer used)
+        except Exception:  # noqa
+            ref = None
+        if isinstance(ref, str) and n["k"] != "symbol":
+            refs["alt" if n["t"].startswith("alt:") else "main"].add(ref)
+    return dict(fname=fname, params=params, nodes=nodes, root=root, shared_refs=sorted(refs["main"] & refs["alt"])), exprs
 
 
 # ------------------------------------------------------------------------------------------
@@ -414,7 +459,11 @@ def shipped_requests(fa):
 
 
 def build_term_graph(fa, req):
-    term, tname, variant = req["term"], req["target"], req.get("variant", 0)
+    term, variant = req["term"], req.get("variant", 0)
+    # dtype naming: variant 0 = the unsized types the shipped signatures use (float, complex, int, bool: C05's "python" naming; the only
+    # ones the XLA client printer knows), variant v >= 1 = C05's sized variant v - 1 (float64/complex128, float32/complex64, ...)
+    tname = "python" if (variant == 0 or req["target"] == "xla_client") else "numpy"
+    variant = max(0, variant - 1)
     syms_t = {}
     C5.collect_symbols(term, tname, variant, syms_t)
     names = sorted(syms_t)
@@ -538,6 +587,7 @@ def judge(results, nproc=None):
     return order, res
 
 
+_DUMPED = set()
 NAMED_WORDS = {"inf", "nan", "eps", "smallest_subnormal", "largest", "smallest", "posinf", "neginf", "pi", "True", "False"}
 
 
@@ -547,21 +597,43 @@ def static_keys(r, triples):
     rows = r["prog"]["rows"]
     likes = {j for row in rows if (row["o"] in SCALAR_LIKE or row["o"].startswith("constlike")) for j in row["v"]}
     ctypes_ = "+".join(sorted({n["t"] for n in r["proj"]["nodes"] if n["k"] in ("constant", "constant_alt") and not n["t"].startswith("alt:")}))
+    pycomplex = any(row["o"] == "opaque" and re.search(r"\dj\)?$", row["s"]) for row in rows)
+
+    def subtree(i, acc):
+        acc.add(i)
+        for c in rows[i - 1]["a"]:
+            subtree(c, acc)
+        return acc
+    pnames = {p["name"] for p in r["proj"]["params"]}
+    free = {pre + n["n"] for n in r["proj"]["nodes"] if n["k"] == "symbol" and n["n"] not in pnames for pre in ("", "symbol_")}
     out = {}
+    shared = any(t[0] == "distinct_share" for t in triples)
+    failing = {t[1] for t in triples}
     for clause, row, what in triples:
         o = rows[row - 1] if row else None
-        if clause in ("constant_value", "constant_type", "constant_like"):
+        if clause in ("constant_value", "constant_type", "operator") and o and pycomplex and (
+                any(rows[k - 1]["o"] == "opaque" for k in subtree(row, set())) or o["o"] in ("lit", "un:-", "un:+")):
+            # a Python complex value printed by repr, e.g. (0.25+0j): not an expression of the target language
+            clause, detail = "constant_value", "python complex repr"
+        elif clause in ("constant_value", "constant_type", "constant_like"):
             detail = o["o"] if o else str(what)
             if o and o["a"]:
                 c = rows[o["a"][0] - 1]
                 detail += "(%s)" % ("literal" if c["o"] in ("lit", "un:-", "un:+") else c["o"] if c["o"] != "var" else "name " + c["s"])
             detail += "@" + ctypes_
         elif clause == "distinct_share":
-            detail = "variable " + ("constant_<value>" if str(what).startswith("constant_") else "other")
+            w = str(what)
+            detail = "variable " + ("constant_<value>" if w.startswith("constant_") else
+                                    "named in both constant contexts" if w in r["proj"].get("shared_refs", ()) else "other")
         elif clause == "def_before_use":
-            detail = what if what in NAMED_WORDS else ("operand a constant is attached to" if row in likes else "var")
+            detail = what if what in NAMED_WORDS else ("constant without an operand (free symbol)" if what in free else
+                                                       "var" if row not in likes else "operand a constant is attached to")
         elif clause in ("single_assignment", "declared_type"):
             detail = "param" if what in [p["name"] for p in r["prog"]["params"]] else ("return" if what == "return" else "var")
+        elif clause in ("operator", "operand_order") and o and shared and any(q["o"] == o["o"] and k + 1 not in failing for k, q in enumerate(rows)):
+            # the operator is spelt as elsewhere in the same text where it is accepted: the term sits above a variable that two
+            # nodes share (reported as distinct_share) and denotes the wrong one of them
+            detail = "above a shared variable"
         else:
             detail = str(what)
         out.setdefault("%s:%s:%s" % (tname, clause, detail), []).append([clause, row, what])
@@ -598,4 +670,251 @@ def collect(chk, order, res):
         for key, trs in static_keys(r, triples).items():
             chk.fail(key, "%s: %s" % (describe(r["req"]), json.dumps(trs[:3])),
                      dict(request=r["req"], text=r["text"], clauses=clauses, failures=trs))
+            want = os.environ.get("C06_DUMP_KEY")
+            if want and re.search(want, key) and key not in _DUMPED:   # debugging aid: one failing program per matching class
+                _DUMPED.add(key)
+                print("DUMP %s\n%s\n%s\n%s" % (key, json.dumps(r["req"]), r["text"], json.dumps(trs[:6])))
     return warned_unbound
+
+
+# ------------------------------------------------------------------------------------------
+# U1: model checks
+# ------------------------------------------------------------------------------------------
+def tables_module(fa):
+    """TargetTablesHLO.tla: the live tables of the two targets as TLA+ data"""
+    tabs = tables(fa)
+    sh, xc = tabs["stablehlo"], tabs["xla_client"]
+    seq = lambda items: "<<%s>>" % ",\n    ".join(items)   # noqa
+    skinds = seq("<<%s, %s>>" % (P.tla_value(k), P.tla_value(v)) for k, v in sh["kinds"].items())
+    sconsts = seq("<<%s, %s>>" % (P.tla_value(k), P.tla_value(v)) for k, v in sh["constants"].items())
+    xkinds = seq("<<%s, %s>>" % (P.tla_value(k), P.tla_value(v)) for k, v in xc["kinds"].items())
+    xconsts = seq("<<%s, %s>>" % (P.tla_value(k), P.tla_value(v)) for k, v in xc["constants"].items())
+    return ("---- MODULE TargetTablesHLO ----\n(* generated from functional_algorithms/targets/{stablehlo,xla_client}.py at check time *)\n"
+            "TablesH == [stablehlo |-> [kinds |-> %s,\n  constants |-> %s],\n xla_client |-> [kinds |-> %s,\n  constants |-> %s]]\n====\n"
+            % (skinds, sconsts, xkinds, xconsts))
+
+
+def check_tables(fa, chk):
+    wd = tlc.workdir()
+    with open(os.path.join(wd, "TargetTablesHLO.tla"), "w") as f:
+        f.write(tables_module(fa))
+    for fn in ("MC_TargetTablesHLO.tla", "MC_TargetTablesHLO.cfg"):
+        with open(os.path.join(tlc.SPEC, fn)) as f, open(os.path.join(wd, fn), "w") as g:
+            g.write(f.read())
+    r = tlc.run("MC_TargetTablesHLO", "MC_TargetTablesHLO.cfg", workers=1, cwd=wd, library=tlc.SPEC)
+    chk.add_mc("MC_TargetTablesHLO(live tables)", r)
+    if not r.finished:
+        raise tlc.MachineryError("MC_TargetTablesHLO failed:\n" + r.out[-2500:])
+    bad = tlaval.fast_tuples(r.out, "BAD")
+    rows = tlaval.fast_tuples(r.out, "ROWS")
+    info = tlaval.fast_tuples(r.out, "INFO")
+    if len(rows) != 2:
+        raise tlc.MachineryError("MC_TargetTablesHLO did not report both targets:\n" + r.out[-1500:])
+    chk.cov["table_entries_judged"] = {x[1]: dict(kinds=x[2], constants=x[3]) for x in rows}
+    chk.cov["table_entries_not_judged"] = sorted({"%s:%s:%s" % (x[1], x[2], x[3]) for x in info})
+    for b in bad:
+        _, tname, table, name = b[:4]
+        detail = " ".join(str(x) for x in b[4:])
+        chk.fail("table:%s:%s:%s" % (tname, table, name),
+                 "%s target, %s table entry %s is not what the dialect / client API defines: %s" % (tname, table, name, detail),
+                 dict(table=True, target=tname, entry=name, detail=detail))
+    return len(bad)
+
+
+def check_algorithm(chk, tier):
+    cfg = "MC_PrinterHLO.cfg" if tier == "quick" else "MC_PrinterHLO_5.cfg"
+    r = tlc.run("MC_PrinterHLO", cfg, workers=min(NWORK, 8))
+    chk.add_mc(cfg, r)
+    if not r.finished and not r.invariant_violated:
+        raise tlc.MachineryError("MC_PrinterHLO failed:\n" + r.out[-2500:])
+    if r.invariant_violated:
+        chk.drift_note("the transcribed StableHLO printing policy violates the machine on a small DAG:\n" + r.error_trace()[:1500])
+    r2 = tlc.run("MC_PrinterHLO", "MC_PrinterHLO_alias.cfg", workers=2)
+    chk.add_mc("MC_PrinterHLO_alias.cfg (must be violated)", r2)
+    if "SoundS" not in r2.invariant_violated:
+        raise tlc.MachineryError("vacuous model: two nodes sharing a reference name are not rejected by the machine")
+
+
+# ------------------------------------------------------------------------------------------
+# U2: TLC's generators
+# ------------------------------------------------------------------------------------------
+def generated_requests(chk, tier, seed):
+    quick = tier == "quick"
+    rng = random.Random(seed)
+    reqs = []
+
+    def add(src, terms, variants=(0, 1), frac=1.0, both_ctx=False):
+        for i, t in enumerate(terms):
+            if frac < 1.0 and rng.random() > frac:
+                continue
+            for tname in TARGETS:
+                for v in (variants if tname == "stablehlo" else (0,)):
+                    if tname == "xla_client":
+                        ctxs = ("alt:FloatType", "plain") if (both_ctx or not quick) else (("alt:FloatType",) if (i + v) % 2 == 0 else ("plain",))
+                    else:
+                        ctxs = ("plain",)
+                    for c in ctxs:
+                        reqs.append(dict(src=src, target=tname, term=t, variant=v, ctx=c, simplify=(i % 3 != 0)))
+
+    for gen in ("attach", "compare", "native", "share"):
+        add("HLOTerms." + gen, C5.gen_terms("HLOTerms", "HLOTerms.cfg", gen, chk), variants=(0,) if quick else (0, 1, 2), both_ctx=True)
+    kinds = C5.gen_terms("PrinterTerms", "PrinterTerms.cfg", "kinds", chk)
+    add("PrinterTerms.kinds", kinds, variants=(0,) if quick else (0, 1, 2))
+    consts = C5.gen_terms("PrinterTerms", "PrinterTerms.cfg", "consts", chk)
+    add("PrinterTerms.consts", consts, variants=(0, 2) if quick else (0, 1, 2), frac=0.5 if quick else 1.0)
+    dags = C5.gen_terms("PrinterTerms", "PrinterTerms.cfg", "dags", chk)
+    add("PrinterTerms.dags", dags, variants=(0,), frac=0.15 if quick else 1.0)
+    rnd = C5.gen_terms("PrinterTerms", "PrinterTerms.cfg", "random", chk,
+                       subst=[(r"NumRandom = \d+", "NumRandom = %d" % (120 if quick else 4000)), (r"MaxDepth = \d+", "MaxDepth = %d" % (4 if quick else 5)),
+                              (r"Seed = \d+", "Seed = %d" % (seed % 1000000))], seed=seed + 3)
+    add("PrinterTerms.random", rnd, variants=(0,) if quick else (0, 2))
+    small = C5.gen_terms("FATerms", "FATerms.cfg", "small", chk, subst=[(r"MaxOps = \d+", "MaxOps = %d" % (1 if quick else 2))])
+    add("FATerms.small", small, variants=(0,), frac=0.5 if quick else 0.1)
+    ops1 = C5.gen_terms("TypedTerms", "TypedTerms.cfg", "ops1", chk)
+    add("TypedTerms.ops1", ops1, variants=(0,), frac=0.03 if quick else 1.0)
+    if not quick:
+        ops2 = C5.gen_terms("TypedTerms", "TypedTerms.cfg", "ops2", chk)
+        add("TypedTerms.ops2", ops2, variants=(0,), frac=0.07)
+    return reqs
+
+
+# ------------------------------------------------------------------------------------------
+# run / replay
+# ------------------------------------------------------------------------------------------
+ROUND = 12000
+
+
+def run(tier, seed):
+    fa = import_repo()
+    chk = Check(PID, tier, seed, level="translation_validation")
+    t0 = time.time()
+
+    def phase(name):
+        print("phase %-44s %6.1fs" % (name, time.time() - t0))
+        sys.stdout.flush()
+    check_algorithm(chk, tier)
+    check_tables(fa, chk)
+    phase("U1 model checks")
+    reqs = shipped_requests(fa) + generated_requests(chk, tier, seed)
+    phase("TLC generators (%d requests)" % len(reqs))
+    stat, declined = {}, {}
+    covk = {t: set() for t in TARGETS}
+    covt = {t: set() for t in TARGETS}
+    covc = {t: set() for t in TARGETS}
+    tot = dict(programs=0, validated=0, warned_unbound=0, undefined_reference_warnings=0)
+    texts = set()
+    tr = dict(fails=[], notes=[], states=0, transitions=0, chunks=0, wall=0.0)
+    sample_prog = {}
+    rounds = [reqs[i:i + ROUND] for i in range(0, len(reqs), ROUND)]
+    for ri, rreqs in enumerate(rounds):
+        results = produce_all(fa, rreqs)
+        for r in results:
+            if r["status"] == "accepted" and r["warned"]["constant_not_implemented"]:
+                # the printer itself says it cannot render a named constant of this graph: the target does not accept it
+                r["status"] = "declined_with_warning"
+            stat.setdefault(r["req"]["src"], {}).setdefault(r["req"]["target"], {}).setdefault(r["status"], 0)
+            stat[r["req"]["src"]][r["req"]["target"]][r["status"]] += 1
+            if r["status"] == "declined":
+                k = "%s:%s" % (r["req"]["target"], r["why"].split(":")[0])
+                declined[k] = declined.get(k, 0) + 1
+        perr = [r for r in results if r["status"] == "parse_error"]
+        if perr:
+            raise tlc.MachineryError("the independent parser cannot parse an emitted text (%d programs), e.g. %s: %s"
+                                     % (len(perr), describe(perr[0]["req"]), perr[0]["why"]))
+        for r in results:
+            if r["status"] == "param_mismatch":
+                chk.fail("%s:parameters" % r["req"]["target"], "%s: parameter list of the text differs from the graph's arguments" % describe(r["req"]),
+                         dict(request=r["req"], text=r["text"]))
+        order, res = judge(results)
+        acc = [r for r in results if r["status"] == "accepted"]
+        for k in ("states", "transitions", "chunks", "wall"):
+            tr[k] += res[k]
+        tr["fails"] += res["fails"]
+        tot["warned_unbound"] += collect(chk, order, res)
+        tot["programs"] += len(acc)
+        tot["validated"] += len(order)
+        for r in acc:
+            t = r["req"]["target"]
+            tot["undefined_reference_warnings"] += r["warned"]["undefined_reference"]
+            if sum(1 for s in r["prog"]["stmts"] if s["op"] == "assign") >= 1 or len(r["proj"]["nodes"]) >= 4:
+                texts.add(hashlib.sha256((t + r["text"]).encode()).digest()[:12])
+            for n in r["proj"]["nodes"]:
+                covk[t].add(("alt:" if n["t"].startswith("alt:") else "") + n["k"])
+                covt[t].add(n["t"])
+                if n["v"]["c"] == "named":
+                    covc[t].add(n["v"]["name"])
+        for r in order:
+            t = r["req"]["target"]
+            if t not in sample_prog and 6 <= len(r["proj"]["nodes"]) <= 14 and any(s["op"] == "assign" for s in r["prog"]["stmts"]):
+                sample_prog[t] = dict(request=r["req"], text=r["text"], nodes=len(r["proj"]["nodes"]), statements=r["prog"]["stmts"])
+        phase("round %d/%d: %d requests, %d programs judged" % (ri + 1, len(rounds), len(rreqs), len(order)))
+        del results, order, res, acc
+    chk.add_trace("Trace_PrinterHLO", tr, tot["programs"], ntraces=tot["validated"])
+    tabs = tables(fa)
+    chk.cov["requests"] = stat
+    chk.cov["declined_by_exception_class"] = declined
+    chk.cov["kinds_printed"] = {t: sorted(covk[t]) for t in TARGETS}
+    chk.cov["dtypes_printed"] = {t: sorted(covt[t]) for t in TARGETS}
+    chk.cov["named_constants_printed"] = {t: sorted(covc[t]) for t in TARGETS}
+    chk.cov["kinds_declared_not_printed"] = {
+        "stablehlo": sorted(k for k, v in tabs["stablehlo"]["kinds"].items() if v and k not in covk["stablehlo"]),
+        "xla_client": sorted(k for k, v in tabs["xla_client"]["kinds"].items() if v["o"] != "none" and k not in covk["xla_client"])}
+    chk.cov["wild_carded_kinds"] = dict({t: sorted(SPEC_WILD[t]) for t in TARGETS}, **{"xla_client alternative (C++) context": sorted(CPP_WILD)})
+    chk.cov["printer_warnings"] = dict(undefined_reference=tot["undefined_reference_warnings"], of_which_text_references_unbound_name=tot["warned_unbound"])
+    classes = {}
+    for key, what, rp in chk.violations:
+        classes[key] = classes.get(key, 0) + 1
+    for key, v in chk.known_hit.items():
+        classes[key] = v[1]
+    chk.cov["failure_classes"] = dict(sorted(classes.items()))
+    for t in TARGETS:
+        if t in sample_prog:
+            chk.sample(sample_prog[t])
+    chk.assumptions += [
+        "nothing is executed: the verdict is about the emitted text against the graph (translation validation); the operation tables are the spec's own "
+        "(FAPrinterHLO!ImplH: StableHLO / CHLO operation names in TableGen spelling, xla:: client API function names incl. the overloaded operators)",
+        "a graph is 'accepted' by a target when rewrite(target) and tostring(target) return without raising AND the printer emitted no "
+        "`constant ... not implemented` warning (such programs are counted as declined_with_warning, not judged); list-valued programs are not covered",
+        "StableHLO `(Op:$ref ...)` is read as the binding of ref at the place where the term ends in print order, followed by a use; a `$ref` before that place is unbound",
+        "leniencies: a constant may be attached to ANY defined term of the constant's element type (not necessarily the graph's `like` node); constants of equal value and "
+        "element type are one sub-expression; numbers are compared after conversion to the node's element format (for a template type parameter: the number itself), "
+        "named constants by name; the comparison-type attribute must be absent or STABLEHLO_DEFAULT_COMPARISON_TYPE; unary plus is the operand itself; wild-carded kinds "
+        "(xla_client round/log2/log10; sign/round/remainder in the C++ constant context) are matched against the package's own template; a term above an undefined name is not judged again",
+        "node static types are taken from Expr.get_type() (their correctness is C08's subject); the C++ typing clauses of C05 are not applied to expressions of the alternative constant context",
+        "decimal literals are converted by Python's float() in the parser and re-verified by DecIsRN in the spec",
+    ]
+    return chk.finish(rule="programs = every shipped (function, signature) of trace_arguments accepted by the target (stablehlo; xla_client under enable_alt with "
+                           "default_constant_type FloatType / DType2 and without the alternative context) x {with, without} the simplifying rewrite, plus TLC-generated terms "
+                           "(HLOTerms attach/compare/native/share, PrinterTerms kinds/consts/dags/random, FATerms small, TypedTerms ops1/ops2) x target x dtype variant x context; "
+                           "non-trivial = distinct emitted texts with at least one binding / assignment or >= 4 graph nodes",
+                      distinct_nontrivial=len(texts),
+                      extra_cov=dict(programs=tot["programs"], distinct_programs_validated=tot["validated"]))
+
+
+def replay(path):
+    fa = import_repo()
+    with open(path) as f:
+        rp = json.load(f)["replay"]
+    chk = Check(PID, "quick", 0, level="translation_validation")
+    if rp.get("table"):
+        n = check_tables(fa, chk)
+        for v in chk.violations:
+            print("VIOLATION property=%s replay=%s  # %s" % (PID, path, v[1]))
+        return 1 if n else 0
+    req = rp["request"]
+    results = produce_all(fa, [req])
+    r = results[0]
+    print("status:", r["status"], r.get("why", ""))
+    if r["status"] == "param_mismatch":
+        print(r["text"])
+        print("VIOLATION property=%s replay=%s  # parameter list of the text differs from the graph's arguments" % (PID, path))
+        return 1
+    if r["status"] != "accepted":
+        return 0
+    print(r["text"])
+    order, res = judge(results, nproc=1)
+    for eid, n in res["notes"]:
+        print("NOTE", n[:2000])
+    for eid, clauses in res["fails"]:
+        print("VIOLATION property=%s replay=%s  # clauses %s" % (PID, path, clauses))
+    return 1 if res["fails"] else 0
